@@ -45,6 +45,9 @@ func c12Opts(set, dir string) []func(*Config) {
 		o = append(o, Update(true))
 	case "updatefalse":
 		o = append(o, Update(false))
+	case "jsonwidth":
+		// the default indent and key order, only the width differs
+		o = append(o, JSON(JSONConfig{Indent: " ", SortKeys: true, Width: 40}))
 	case "basejson":
 		// ONE option value shared by every Config of the case that is built from it (c12SharedJSON is set per run)
 		o = append(o, c12SharedJSON)
@@ -221,7 +224,7 @@ func c12Gen(c *vfCtx, emit func(c12Case)) {
 		}
 	}
 	// two Configs built one after the other in one process, differing in their options: the second behaves as if it were alone
-	pairSets := []string{"none", "update", "updatefalse", "ext", "json", "filename", "basejson", "basejson+more"}
+	pairSets := []string{"none", "update", "updatefalse", "ext", "json", "filename", "basejson", "basejson+more", "jsonwidth"}
 	for _, x := range pairSets {
 		for _, y := range pairSets {
 			if x == y {
